@@ -36,6 +36,26 @@ NAT_CONSTS = [
     ("killPidStreamSize", "src/oomd/plugins/BaseKillPlugin.cpp", r"stream_size\s*=\s*(\d+)"),
     ("killRetries", "src/oomd/plugins/BaseKillPlugin.cpp", r"int\s+tries\s*=\s*(\d+)"),
     ("statsMsgBufSize", "src/oomd/Stats.cpp", r"char\s+\w+\[(\d+)\]"),
+    ("killStreamSize", "src/oomd/plugins/BaseKillPlugin.cpp", r"streamSize\s*=\s*(\d+)"),  # kill family
+    # C19 stats service: read window, per-read socket timeout (s), destructor wait (s), sizeof(sun_path)
+    ("statsReadWindow", "src/oomd/Stats.cpp", r"num_read\s*<\s*(\d+)"),
+    ("statsIoTimeoutSec", "src/oomd/Stats.cpp", r"io_timeout\s*\{\s*\.tv_sec\s*=\s*(\d+)"),
+    ("statsShutdownWaitSec", "src/oomd/Stats.cpp", r"wait_for\(\s*lock\s*,\s*std::chrono::seconds\((\d+)\)"),
+    ("statsListenBacklog", "src/oomd/Stats.cpp", r"::listen\(\s*sockfd_\s*,\s*(\d+)\)"),
+    ("sunPathSize", "/usr/include/x86_64-linux-gnu/sys/un.h", r"char\s+sun_path\[(\d+)\]"),
+    # C18 senpai: member initialisers of Senpai.h (argument defaults) and the memory.high.tmp duration
+    ("senpaiDefLimitMinMiB", "src/oomd/plugins/Senpai.h", r"limit_min_bytes_\{(\d+)ull\s*<<\s*20\}"),
+    ("senpaiDefLimitMaxGiB", "src/oomd/plugins/Senpai.h", r"limit_max_bytes_\{(\d+)ull\s*<<\s*30\}"),
+    ("senpaiDefInterval", "src/oomd/plugins/Senpai.h", r"int64_t\s+interval_\{(\d+)\}"),
+    ("senpaiDefPressureMs", "src/oomd/plugins/Senpai.h", r"pressure_ms_\{(\d+)\}"),
+    ("senpaiDefSwapoutBpsShift", "src/oomd/plugins/Senpai.h", r"swapout_bps_threshold_\{1ull\s*<<\s*(\d+)\}"),
+    ("senpaiHighTmpSeconds", "src/oomd/plugins/Senpai.cpp", r"writeMemhightmpAt\(\s*cgroup_ctx\.fd\(\)\s*,\s*value\s*,\s*std::chrono::seconds\(([1-9]\d*)\)"),
+    # C08 detectors: weights of the watched-cgroup score, initial `last_pressure_` of pressure_rising_beyond
+    ("detectScoreW10", "src/oomd/plugins/PressureAbove.cpp", r"rp\.sec_10\s*\*\s*(\d+)\s*\+\s*rp\.sec_60"),
+    ("detectScoreW60", "src/oomd/plugins/PressureAbove.cpp", r"rp\.sec_60\s*\*\s*(\d+)\s*\+\s*rp\.sec_300\s*>"),
+    ("detectRisingScoreW10", "src/oomd/plugins/PressureRisingBeyond.cpp", r"rp\.sec_10\s*\*\s*(\d+)\s*\+\s*rp\.sec_60"),
+    ("detectRisingScoreW60", "src/oomd/plugins/PressureRisingBeyond.cpp", r"rp\.sec_60\s*\*\s*(\d+)\s*\+\s*rp\.sec_300\s*>"),
+    ("detectRisingInitLast10", "src/oomd/plugins/PressureRisingBeyond.h", r"last_pressure_\{\s*(\d+)\s*,"),
 ]
 
 INT_CONSTS = [
@@ -48,11 +68,38 @@ STR_CONSTS = [
     ("statKills", "src/oomd/include/CoreStats.h", r'kKillsKey\s*=\s*"([^"]*)"'),
     ("statDropInAdds", "src/oomd/include/CoreStats.h", r'kNumDropInAdds\s*=\s*"([^"]*)"'),
     ("statDropInFired", "src/oomd/include/CoreStats.h", r'kNumDropInFired\s*=\s*"([^"]*)"'),
+    # kill family (C01/C03/C04/C17): accounting xattrs of BaseKillPlugin.cpp, preference xattrs of Fs.h
+    ("xattrOomsTrusted", "src/oomd/plugins/BaseKillPlugin.cpp", r'kOomdKillInitiationTrustedXattr\s*=\s*"([^"]*)"'),
+    ("xattrOomsUser", "src/oomd/plugins/BaseKillPlugin.cpp", r'kOomdKillInitiationUserXattr\s*=\s*"([^"]*)"'),
+    ("xattrKillTrusted", "src/oomd/plugins/BaseKillPlugin.cpp", r'kOomdKillCompletionTrustedXattr\s*=\s*"([^"]*)"'),
+    ("xattrKillUser", "src/oomd/plugins/BaseKillPlugin.cpp", r'kOomdKillCompletionUserXattr\s*=\s*"([^"]*)"'),
+    ("xattrUuidTrusted", "src/oomd/plugins/BaseKillPlugin.cpp", r'kOomdKillUuidTrustedXattr\s*=\s*"([^"]*)"'),
+    ("xattrUuidUser", "src/oomd/plugins/BaseKillPlugin.cpp", r'kOomdKillUuidUserXattr\s*=\s*"([^"]*)"'),
+    ("xattrPreferTrusted", "src/oomd/util/Fs.h", r'kOomdSystemPreferXAttr\s*=\s*"([^"]*)"'),
+    ("xattrPreferUser", "src/oomd/util/Fs.h", r'kOomdUserPreferXAttr\s*=\s*"([^"]*)"'),
+    ("xattrAvoidTrusted", "src/oomd/util/Fs.h", r'kOomdSystemAvoidXAttr\s*=\s*"([^"]*)"'),
+    ("xattrAvoidUser", "src/oomd/util/Fs.h", r'kOomdUserAvoidXAttr\s*=\s*"([^"]*)"'),
+    ("fileCgroupKill", "src/oomd/util/Fs.h", r'kCgroupKill\s*=\s*"([^"]*)"'),
+    ("fileCgroupFreeze", "src/oomd/util/Fs.h", r'kCgroupFreeze\s*=\s*"([^"]*)"'),
+    ("fileCgroupProcs", "src/oomd/util/Fs.h", r'kProcsFile\s*=\s*"([^"]*)"'),
+    # C18 senpai: control files written, double-typed argument defaults (decimal text)
+    ("senpaiFileMemHigh", "src/oomd/util/Fs.h", r'kMemHighFile\s*=\s*"([^"]*)"'),
+    ("senpaiFileMemHighTmp", "src/oomd/util/Fs.h", r'kMemHighTmpFile\s*=\s*"([^"]*)"'),
+    ("senpaiFileMemReclaim", "src/oomd/util/Fs.h", r'kMemReclaimFile\s*=\s*"([^"]*)"'),
+    ("senpaiDefPressurePct", "src/oomd/plugins/Senpai.h", r"mem_pressure_pct_\{([0-9.]+)\}"),
+    ("senpaiDefIoPressurePct", "src/oomd/plugins/Senpai.h", r"io_pressure_pct_\{([0-9.]+)\}"),
+    ("senpaiDefMaxProbe", "src/oomd/plugins/Senpai.h", r"max_probe_\{([0-9.]+)\}"),
+    ("senpaiDefMaxBackoff", "src/oomd/plugins/Senpai.h", r"max_backoff_\{([0-9.]+)\}"),
+    ("senpaiDefCoeffProbe", "src/oomd/plugins/Senpai.h", r"coeff_probe_\{([0-9.]+)\}"),
+    ("senpaiDefCoeffBackoff", "src/oomd/plugins/Senpai.h", r"coeff_backoff_\{([0-9.]+)\}"),
+    ("senpaiDefSwapThreshold", "src/oomd/plugins/Senpai.h", r"swap_threshold_\{([0-9.]+)\}"),
+    # C08: default of pressure_rising_beyond's fast_fall_ratio (member initialiser)
+    ("detectRisingDefFastFallRatio", "src/oomd/plugins/PressureRisingBeyond.h", r"fast_fall_ratio_\{([0-9.]+)\}"),
 ]
 
 # free-form expressions evaluated by python (e.g. `1024 * 1024`)
 EXPR_CONSTS = [
-    ("logMaxSize", "src/oomd/Log.h", r"kMaxLogQueueSize\w*\s*=\s*([0-9*\s<]+);"),
+    ("logMaxSize", "src/oomd/Log.h", r"\bsize_t\s+maxSize\s*\{\s*([0-9*\s<]+)\}"),  # C20: AsyncLogState::maxSize
 ]
 
 
@@ -120,6 +167,158 @@ def plugin_schemas(repo):
     return out
 
 
+# ---- C12: typed argument schemas (Generated/ArgSchemas.lean) --------------------------------
+# For every registered plugin: (argument name, required?, kind) in registration order, where kind is
+# the parser the code attaches: the destination member's C++ type for addArgument (parseValue<T>),
+# or a classification of the custom parser expression for addArgumentCustom.  Kill plugins get the
+# arguments of BaseKillPlugin::init appended, prekill hooks those of PrekillHook::init.
+C12_TYPE_KINDS = [
+    (r"std::chrono::milliseconds", "ms"), (r"int64_t", "int64"), (r"ResourceType", "resource"),
+    (r"std::string", "string"), (r"double", "double"), (r"float", "float"), (r"bool", "bool"), (r"int", "int"),
+]
+C12_KINDS = ["int", "int64", "bool", "double", "float", "string", "ms", "resource", "cgroup", "uint",
+             "sizepct", "pct100", "nonempty", "unknown"]
+
+
+def c12_member_kind(member, srcs):
+    for src in srcs:
+        m = re.search(r"^[ \t]*([\w:]+(?:\s*<[^;{}()]*>)?)\s+" + re.escape(member) + r"\s*(?:\{[^;]*\}|=[^;]*)?;", src, re.M)
+        if m:
+            ty = m.group(1)
+            for rx, k in C12_TYPE_KINDS:
+                if re.fullmatch(rx, ty):
+                    return k
+            return "unknown"
+    return "unknown"
+
+
+def c12_custom_kind(expr):
+    if "parseCgroup" in expr:
+        return "cgroup"
+    if "parseSizeOrPercent" in expr:
+        return "sizepct"
+    if re.search(r">=\s*100", expr) and re.search(r"<\s*0", expr):
+        return "pct100"
+    if re.fullmatch(r"\s*PluginArgParser::parseUnsignedInt\s*", expr):
+        return "uint"
+    if re.search(r"\.empty\(\)", expr) and "return str" in expr:
+        return "nonempty"
+    return "unknown"
+
+
+def c12_split_top(s):
+    """split an argument list at top-level commas"""
+    out, depth, cur, q = [], 0, "", None
+    for ch in s:
+        if q:
+            cur += ch
+            if ch == q:
+                q = None
+            continue
+        if ch in "\"'":
+            q = ch
+            cur += ch
+        elif ch in "([{":
+            depth += 1
+            cur += ch
+        elif ch in ")]}":
+            depth -= 1
+            cur += ch
+        elif ch == "," and depth == 0:
+            out.append(cur)
+            cur = ""
+        else:
+            cur += ch
+    if cur.strip():
+        out.append(cur)
+    return [x.strip() for x in out]
+
+
+def c12_calls(src):
+    """every argParser_.addArgument[Custom](...) call of src as (custom?, [args])"""
+    res = []
+    for m in re.finditer(r"argParser_\s*\.\s*addArgument(Custom)?\s*\(", src):
+        i, depth = m.end(), 1
+        while i < len(src) and depth:
+            depth += {"(": 1, ")": -1}.get(src[i], 0)
+            i += 1
+        res.append((bool(m.group(1)), c12_split_top(src[m.end():i - 1])))
+    return res
+
+
+def c12_args_of(src, decl_srcs):
+    args = []
+    for custom, parts in c12_calls(src):
+        if len(parts) < 2:
+            continue
+        nm = parts[0]
+        if nm.startswith('"'):
+            name = nm.strip('"')
+        else:
+            m = re.search(r"\b" + re.escape(nm) + r"\s*=\s*\"([^\"]+)\"", src)
+            name = m.group(1) if m else "?" + nm
+        if custom:
+            kind = c12_custom_kind(parts[2]) if len(parts) > 2 else "unknown"
+            required = len(parts) > 3 and parts[3] == "true"
+        else:
+            kind = c12_member_kind(parts[1], decl_srcs)
+            required = len(parts) > 2 and parts[2] == "true"
+        args.append((name, required, kind))
+    return args
+
+
+def typed_arg_schemas(repo):
+    """[(plugin, is_hook, is_kill, checks_args, [(arg, required, kind)])] - also used by vlib/props/C12.py"""
+    sch = plugin_schemas(repo)
+    pdir = os.path.join(repo, "src/oomd/plugins")
+    base_kill = strip_comments(read(repo, "src/oomd/plugins/BaseKillPlugin.cpp"))
+    base_kill_h = strip_comments(read(repo, "src/oomd/plugins/BaseKillPlugin.h"))
+    hook_h = strip_comments(read(repo, "src/oomd/engine/PrekillHook.h"))
+    items = []
+    for name, d in sorted(sch.items()):
+        base = re.sub(r"<.*", "", d["class"]).split("::")[-1]
+        srcs = []
+        for root, _, fs in os.walk(pdir):
+            for f in sorted(fs):
+                if f in (base + ".cpp", base + ".h", base + "-inl.h"):
+                    srcs.append(strip_comments(open(os.path.join(root, f)).read()))
+        args = []
+        for s in srcs:
+            args += c12_args_of(s, srcs)
+        if d["kill"]:
+            args += c12_args_of(base_kill, [base_kill_h])
+        if d["kind"] == "PREKILL_HOOK":
+            args += c12_args_of(hook_h, [hook_h])
+        # a plugin whose init never consults the argument parser accepts any argument
+        checks = any(re.search(r"argParser_\s*\.\s*parse\s*\(", s) for s in srcs) or d["kill"] or d["kind"] == "PREKILL_HOOK"
+        items.append((name, d["kind"] == "PREKILL_HOOK", d["kill"], checks, args))
+    return items
+
+
+def emit_arg_schemas(repo, out, report):
+    items = typed_arg_schemas(repo)
+    L = ["/-! GENERATED by tools/extract.py (C12): typed argument schemas of the registered plugins:",
+         "(name, required, parser kind) per `argParser_.addArgument*` call in registration order; kill plugins",
+         "include BaseKillPlugin::init's arguments, prekill hooks PrekillHook::init's. Do not edit. -/",
+         "namespace OomdModel.Generated", "",
+         "inductive ArgKind where", "  | " + " | ".join(C12_KINDS), "deriving Repr, DecidableEq, Inhabited", "",
+         "structure TypedArg where", "  name : String", "  required : Bool", "  kind : ArgKind", "deriving Repr, DecidableEq", "",
+         "/-- `checksArgs = false`: init() never calls argParser_.parse (any argument is accepted) -/",
+         "structure TypedSchema where", "  plugin : String", "  isHook : Bool", "  isKill : Bool", "  checksArgs : Bool",
+         "  args : List TypedArg", "deriving Repr, DecidableEq", "",
+         "def typedSchemas : List TypedSchema := ["]
+    rows = []
+    for name, hook, kill, checks, args in items:
+        al = ", ".join("⟨%s, %s, .%s⟩" % (lean_str(n), "true" if r else "false", k) for n, r, k in args)
+        rows.append("  ⟨%s, %s, %s, %s, [%s]⟩" % (lean_str(name), "true" if hook else "false", "true" if kill else "false",
+                                               "true" if checks else "false", al))
+    L.append(",\n".join(rows))
+    L += ["]", "", "end OomdModel.Generated", ""]
+    write_if_changed(os.path.join(out, "ArgSchemas.lean"), "\n".join(L))
+    report["typed_args"] = sum(len(a) for _, _, _, _, a in items)
+    report["unknown_arg_kinds"] = [n + "." + a for n, _, _, _, args in items for a, _, k in args if k == "unknown"]
+
+
 def main():
     ap = argparse.ArgumentParser()
     ap.add_argument("--repo", default="/repo")
@@ -179,6 +378,7 @@ def main():
     sl.append(",\n".join(items))
     sl += ["]", "", "end OomdModel.Generated", ""]
     write_if_changed(os.path.join(a.out, "Schemas.lean"), "\n".join(sl))
+    emit_arg_schemas(a.repo, a.out, report)  # C12
     report["plugins"] = len(sch)
     print(json.dumps(report, sort_keys=True))
 
